@@ -23,11 +23,11 @@ def sigs(repo):
 
 
 def templates(ctx):
-    return [{'name': n, 'fn': n, 'repo': ctx.repo} for n in sigs(ctx.repo)]
+    return [{'name': n, 'fn': n, 'repo': ctx.repo, 'deep': not ctx.quick()} for n in sigs(ctx.repo)]
 
 
 def path(ex, t):
-    return cc.run_one(ex, t['fn'], sigs(t['repo'])[t['fn']])
+    return cc.run_one(ex, t['fn'], sigs(t['repo'])[t['fn']], {'deep': t.get('deep')})
 
 
 def post(ex, t, r):
@@ -75,7 +75,7 @@ def run(ctx, pid='C17'):
     prog = load.program(ctx.repo, ctx.cache)
     T = templates(ctx)
     S_ = sigs(ctx.repo)
-    ctx.cov['bounds'] = {'functions': len(T), 'handles': 'one value of each of the 18 kinds per Value parameter (payload symbolic; list <= 3, dict <= 2 keys, grid <= 2 rows) or null',
+    ctx.cov['bounds'] = {'functions': len(T), 'handles': 'one value of each of the 18 kinds per Value parameter (payload symbolic; quick: list <= 3, dict <= 2 keys, grid <= 2 rows, strings <= 1 byte; thorough: list <= 4, dict <= 3 keys with a nested dict, grid <= 3 rows, strings <= 2 bytes) or null',
                          'numbers': 'fully symbolic (u32 / i32 / usize / f64 / bool)', 'strings': 'per-parameter domains (see capi_common.string_domain) or 0-1 symbolic bytes, null, invalid UTF-8'}
     S = sym.explore_templates(ctx, __import__('props.C17', fromlist=['x']), T, prog, split_depth=2, budget_s=420 if ctx.quick() else 2400)
     sym.native_check(ctx, S)
